@@ -275,6 +275,16 @@ def units(tier):
                                                             sym_y=True, run_solve=run_solve),
                        wall_s=15 if tier == 'quick' else 45, max_paths=40 if tier == 'quick' else 300, timeout_ms=3000,
                        patched=True))
+    # cells on a design with a numerically empty CSC column whose zeros are stored (C19's units re-used): still refused or solved
+    from checks import c19, steps as STP
+    from checks.common import Unit as _U
+    us.append(_U('C13/D/degenerate-cell[ProxNewton,Quadratic,L1,csc with stored zeros]', c19.u_degenerate,
+                 dict(cfg=dict(solver='ProxNewton', datafit='Quadratic', penalty='L1', X='zero_first32', max_iter=1, max_pn_iter=1, p0=2,
+                               fit_intercept=False, ws_strategy='subdiff', warm=False, sparse=True, explicit_zeros=True)),
+                 wall_s=90, timeout_ms=8000, patched=True))
+    us.append(_U('C13/D/degenerate-cell[MultiTaskBCD,QuadraticMultiTask,L2_1,csc with stored zeros]', STP.u_multitask_run,
+                 dict(X='zero_first32', fit_intercept=False, sparse=True, warm=False, budget=(2, 1), want=('certificate',),
+                      explicit_zeros=True, p0=2), wall_s=90, timeout_ms=8000))
     return us
 
 
